@@ -45,6 +45,8 @@ def nontrivial_key(d):
 
 
 def run_cases(ctx, n_cases, stream, res, stats):
+    import time
+    t0 = time.time()
     rng = ctx.rng(stream)
     cases, metas = [], []
     tries = 0
@@ -63,6 +65,8 @@ def run_cases(ctx, n_cases, stream, res, stats):
         stats["spaces"][space] = stats["spaces"].get(space, 0) + 1
         stats["trees"].append(ts.num_trees)
         stats["grid"].append(int(d["G"]))
+    stats["t_impl"] = round(time.time() - t0, 1)
+    t1 = time.time()
     # ---- C: the rule, recomputed from fit.inside
     for d, m in zip(cases, metas):
         res.evaluations += 1
@@ -76,8 +80,12 @@ def run_cases(ctx, n_cases, stream, res, stats):
             res.nontrivial.add(key)
         res.sample(dict(nodes=d["n"], grid=int(d["G"]), space=d["space"], eps=d["eps"], edges=len(d["order"]),
                         assigned=d["idx"].tolist()))
+    stats["t_oracle"] = round(time.time() - t1, 1)
+    t2 = time.time()
     # ---- B: Lean model on the implementation's data
     model = mc.run_model(cases, "f")
+    stats["t_lean_float"] = round(time.time() - t2, 1)
+    t3 = time.time()
     for i, (d, m) in enumerate(zip(cases, metas)):
         o = model.get(i)
         if o is None:
@@ -120,6 +128,7 @@ def run_cases(ctx, n_cases, stream, res, stats):
                         "maximize-model-differs-exact",
                         "outside_maximization differs from the Lean model run in exact rationals beyond a numerical tie",
                         dict(metas[i], impl=d["idx"].tolist(), model=o["idx"].tolist()), stage="B"))
+    stats["t_lean_rat"] = round(time.time() - t3, 1)
     return cases
 
 
@@ -136,9 +145,12 @@ def finish_stats(stats):
 
 
 def run(ctx):
+    import time
     res = Result()
+    t0 = time.time()
     import tsdate  # noqa: F401
     stats = new_stats()
+    stats["t_import"] = round(time.time() - t0, 1)
     run_cases(ctx, ctx.n(60, 1500), 1, res, stats)
     res.rule = ("msprime tree sequences (2-7 samples at time 0, 1-12 trees, optional polytomies / node renumbering) x "
                 "probability space x eps x 3-9 custom timepoints; real outside_maximization vs the Lean model on the "
